@@ -450,7 +450,7 @@ TABLE["C10"] = dict(run=_c10, replay=_c10_replay)
 
 
 # ------------------------------------------------------------------------------------------
-HIST_DIMS_QUICK = ["mut", "qsig", "bind", "qeSigner", "leafRole", "leafPki", "pool", "tcbSigner", "qeSignerDoc", "tcbExtra", "tcbContent", "modBranch", "qeContent",
+HIST_DIMS_QUICK = ["mut", "tcbAlter", "qeAlter", "qsig", "bind", "qeSigner", "leafRole", "leafPki", "pool", "tcbSigner", "qeSignerDoc", "tcbExtra", "tcbContent", "modBranch", "qeContent",
                    "pckCrlRev", "rootCrlRev", "pckCrlSigner", "time"]
 
 
